@@ -1,5 +1,5 @@
 #!/bin/bash
-# seedsweep.sh <round: 1|2|3> <Cxx> : apply the stored seeded change of that round to a fresh scratch
+# seedsweep.sh <round: 1|2|3|4> <Cxx> [<Cyy>] : (Cyy: the property whose check is run, default Cxx) apply the stored seeded change of that round to a fresh scratch
 # worktree of /repo's main, then
 #  (a) run the quick check against it under the default seed WITH the corpus; if it reports a concrete
 #      violation and corpus/Cxx/seeded-<id>.json does not exist yet, store that failing input there;
@@ -8,9 +8,9 @@
 # One line per run goes to seeded/SWEEP.log.  The worktree is removed afterwards.
 set -u
 export GOFLAGS=-mod=mod GOPROXY=off GOSUMDB=off GOTOOLCHAIN=local
-RD=$1; P=$2
+RD=$1; P=$2; K=${3:-$2}
 V=$(cd "$(dirname "$0")/.." && pwd)
-case $RD in 1) SUF=""; ROOT=/tmp/sweep1;; 2) SUF="-2"; ROOT=/tmp/sweep2;; 3) SUF="-3"; ROOT=/tmp/sweep3;; esac
+case $RD in 1) SUF=""; ROOT=/tmp/sweep1;; 2) SUF="-2"; ROOT=/tmp/sweep2;; 3) SUF="-3"; ROOT=/tmp/sweep3;; 4) SUF="-4"; ROOT=/tmp/sweep4;; esac
 ID=$P$SUF; R=$ROOT/$P/repo
 git -C /repo worktree remove --force $R 2>/dev/null; rm -rf $R; git -C /repo worktree prune
 mkdir -p $ROOT/$P
@@ -21,17 +21,17 @@ cd $V
 classify() { # stdin: check output
   awk '/^VIOLATION/ { if ($0 ~ /no-failing-input-found/) n++; else c++ } END { if (c>0) print "concrete"; else if (n>0) print "correspondence-only"; else print "ESCAPED" }'
 }
-out=$(LC_REPO=$R ./check $P quick 2>&1 | grep -v '^KNOWN')
+out=$(LC_REPO=$R ./check $K quick 2>&1 | grep -v '^KNOWN')
 a=$(echo "$out" | classify)
-if [ "$a" = concrete ] && [ ! -f corpus/$P/seeded-$ID.json ]; then
+if [ "$a" = concrete ] && [ ! -f corpus/$K/seeded-$ID.json ]; then
   f=$(echo "$out" | grep '^VIOLATION' | grep -v no-failing | head -1 | sed 's/.*replay=//; s/ .*//')
-  python3 - "$f" "corpus/$P/seeded-$ID.json" <<'PY'
+  python3 - "$f" "corpus/$K/seeded-$ID.json" <<'PY'
 import json,sys
 d=json.load(open(sys.argv[1]))
 if d.get('input') is not None: json.dump([d['input']], open(sys.argv[2],'w'))
 PY
 fi
-b=$(VERIF_SEED=11 VERIF_NO_SEEDED_CORPUS=1 LC_REPO=$R ./check $P quick 2>&1 | grep -v '^KNOWN' | classify)
-c=$(VERIF_SEED=12 VERIF_NO_SEEDED_CORPUS=1 LC_REPO=$R ./check $P quick 2>&1 | grep -v '^KNOWN' | classify)
-echo "$(date -u +%FT%TZ) verif=$(git rev-parse --short HEAD) $ID default+corpus=$a seed11-generators-only=$b seed12-generators-only=$c" | tee -a seeded/SWEEP.log
+b=$(VERIF_SEED=11 VERIF_NO_SEEDED_CORPUS=1 LC_REPO=$R ./check $K quick 2>&1 | grep -v '^KNOWN' | classify)
+c=$(VERIF_SEED=12 VERIF_NO_SEEDED_CORPUS=1 LC_REPO=$R ./check $K quick 2>&1 | grep -v '^KNOWN' | classify)
+echo "$(date -u +%FT%TZ) verif=$(git rev-parse --short HEAD) $ID check=$K default+corpus=$a seed11-generators-only=$b seed12-generators-only=$c" | tee -a seeded/SWEEP.log
 git -C /repo worktree remove --force $R; rm -rf $ROOT/$P; git -C /repo worktree prune
